@@ -118,6 +118,9 @@ def suite_mixed(rng, tier, flavour):          # C12: one directory handed betwee
     for p in gen.damage_programs(rng, "astd", 2 if tier == "quick" else 30, exhaustive_cuts=False):
         yield (gen.mix_flavours(rng, p), ["sync", "astd", "tok"], {})
 
+def suite_rot(rng, tier, flavour):            # C01 / C18: in-place rot between two retrievals in one process
+    yield from gen.rot_programs(rng, flavour, 80 if tier == "quick" else 800)
+
 def suite_refcache(rng, tier, flavour):       # C17: complete reference-written caches (multi-hash integrity included)
     yield from gen.ref_cache_programs(rng, flavour, 120 if tier == "quick" else 1200)
 
@@ -165,16 +168,16 @@ REGISTRY = {
             "rule": "writers dropped after creation / after some chunks / after a rejected commit, or left open, interleaved with successful operations; plus async writers whose writes are cancelled while the background task is in flight (started, polled once, dropped) before further chunks and commit; lookups, listing, and the final tree (including tmp/) compared."},
     "C16": {"flavours": Q3, "suites": [("dedup", suite_dedup)], "step_suites": [("rewrite_kill", steps.suite_rewrite_kill)],
             "rule": "programs re-writing equal data under the same and different keys through different entry points, flavours and all five algorithms; returned addresses (hashlib/libxxhash), lookups and the final tree (one file per address) compared; plus a strace kill sweep over re-writes of stored bytes (one-shot same / other key, by address, streamed with and without declared size): at every kill point the stored copy is present, byte-identical, and its key still reads it."},
-    "C01": {"flavours": Q3, "suites": [("damage_content", suite_damage_content)],
-            "rule": "programs that store data then damage content files (bit flip, truncation, extension, emptying, bytes of another entry, deletion, symlink substitution) and retrieve through every checked entry point (read, read_hash, streamed reader + check, copy/hard_link/reflink)."},
-    "C18": {"flavours": Q3, "suites": [("extract", suite_extract), ("damage_content", suite_damage_content)],
+    "C01": {"flavours": Q3, "suites": [("damage_content", suite_damage_content), ("rot", suite_rot)],
+            "rule": "programs that store data then damage content files (bit flip, truncation, extension, emptying, bytes of another entry, deletion, symlink substitution) and retrieve through every checked entry point (read, read_hash, streamed reader + check, copy/hard_link/reflink); plus programs in which an entry is retrieved successfully, then rots IN PLACE (same inode, length and timestamps: a flipped bit or another entry's bytes) and is retrieved again in the same process through every checked entry point."},
+    "C18": {"flavours": Q3, "suites": [("extract", suite_extract), ("damage_content", suite_damage_content), ("rot", suite_rot)],
             "rule": "copy / hard_link / reflink by key and by address, checked and unchecked, to fresh and existing destinations, on pristine and damaged content; results, byte counts and destination files compared."},
-    "C12": {"flavours": Q3, "suites": [("all", suite_all), ("damage", suite_damage), ("mixed", suite_mixed)],
+    "C12": {"flavours": Q3, "suites": [("all", suite_all), ("damage", suite_damage), ("crafted", suite_crafted), ("mixed", suite_mixed)],
             "rule": "all op kinds incl. content and index damage on three flavours; each binary must match the one deterministic model step by step and tree by tree, hence each other; plus mixed-flavour programs: one cache directory shared by the sync-only, async-std and tokio binaries, every op routed to a random one of them through its sync or async entry point (writer/reader handles stay with the process that opened them)."},
     "C05": {"flavours": Q3, "suites": [("hist", suite_hist), ("foreign", suite_foreign)],
             "rule": "exhaustive histories over 2 keys x 2 values x {insert,remove} x {sync,async} up to length 2 (quick) / 3 (thorough) with lookups of both keys after every step, plus random histories of 3..40 ops (index::insert with random options, real writes, removes) over small and hostile keys, lookups via find/metadata/read/list; plus buckets pre-filled with interleaved records of the key and of foreign keys (as if their SHA-1 collided), foreign tombstones after the key's last write included."},
     "C06": {"flavours": Q3, "suites": [("damage", suite_damage), ("bitflips", suite_bitflips)],
             "rule": "buckets of 2..6 reference-written records (tombstones, foreign keys) are damaged: one record cut at every byte length, bit flips, garbage / NUL / invalid-UTF-8 / lone-CR lines, destroyed newlines, duplicated fragments; then lookups through sync and async and the listing, a further API insert, and lookups again; plus every single-bit flip of the first 80 bytes (newline, checksum, tab, start of the JSON) of the newest record (quick) / of every byte of it (thorough)."},
-    "C10": {"flavours": Q2, "suites": [("ls", suite_ls), ("damage", suite_damage)],
-            "rule": "random histories of 5..60 ops over small and hostile keys followed by metadata of every key and list_sync, every listed entry compared field by field with the model; plus the damaged buckets of C06 (listing vs lookups)."},
+    "C10": {"flavours": Q2, "suites": [("ls", suite_ls), ("damage", suite_damage)], "step_suites": [("fault_listing", steps.suite_fault_listing)],
+            "rule": "random histories of 5..60 ops over small and hostile keys followed by metadata of every key and list_sync, every listed entry compared field by field with the model; plus the damaged buckets of C06 (listing vs lookups); plus, with strace, the states a failed call leaves behind: after every single fault (EIO; thorough: ENOSPC, EACCES) of every write / removal / full removal, a fresh process's listing and lookups agree key by key."},
 }
